@@ -30,6 +30,28 @@ import ext_layer
 EXTRA = os.path.join(HARNESS, "moddrv_c05.inc")
 
 
+def run_mod_par(run, m, lines, name, timeout=1500):
+    """run_mod for long batches of independent commands: the lines are dealt round-robin to up to 8 driver processes
+    that run side by side; the answers come back in the order of the lines (deterministic).  A crash costs the rest of
+    that process's share only."""
+    k = min(8, len(lines) // 40)
+    if k <= 1:
+        return run_mod(run, m, lines, name, timeout=timeout)
+    from concurrent.futures import ThreadPoolExecutor
+    parts = [lines[i::k] for i in range(k)]
+    with ThreadPoolExecutor(k) as ex:
+        res = list(ex.map(lambda part: run_lines(m["exe"], part, timeout=timeout, env=SAN_ENV), parts))
+    out = [None] * len(lines)
+    for i, (part, (rc, o, err)) in enumerate(zip(parts, res)):
+        if rc != 0 or len(o) != len(part):
+            bad = part[len(o)] if len(o) < len(part) else None
+            run.violation("crash:" + name, {"what": "moddrv died (rc=%s): sanitizer report, abort or signal" % rc,
+                                            "module": m["text"], "command_line": bad, "stderr_tail": err[-2500:]})
+            o = o + ["CRASH"] * (len(part) - len(o))
+        out[i::k] = o
+    return out
+
+
 def parse_sweep(o):
     """sweep output -> dict or None"""
     m = re.match(r"(\S+) (\d+) (\S+) n=(\d+) pts=(\d+) badsplit=(\S+) badprefix=(\S+)$", o)
@@ -113,7 +135,7 @@ def sweep_items(run, m, items, rng, quick, name):
         # (thorough: the base corpus sweeps up to 3000 points per encoding; here there are ten times as many encodings)
         maxpts = (400 if n <= 3000 else 80) if quick else (600 if n <= 6000 else 200)
         lines.append("sweep %s %s %s %d %d" % (cc["tn"], e["syn"], e["hex"], maxpts, rng.below(2**31)))
-    o = run_mod(run, m, lines, name, timeout=1500)
+    o = run_mod_par(run, m, lines, name, timeout=1500)
     res, feeds = [], []
     for (cc, e), line, r in zip(items, lines, o):
         run.case(line)
@@ -129,7 +151,7 @@ def sweep_items(run, m, items, rng, quick, name):
         if sw["n"] <= 3000:
             for sc in ["1*", ",".join(map(str, U.schedules(rng, sw["n"], 1)[0]))]:
                 feeds.append((cc, e, sw, sc, "feed %s %s %s %s" % (cc["tn"], e["syn"], e["hex"], sc)))
-    o = run_mod(run, m, [x[4] for x in feeds], name + "-feed", timeout=1500)
+    o = run_mod_par(run, m, [x[4] for x in feeds], name + "-feed", timeout=1500)
     for (cc, e, sw, sc, line), r in zip(feeds, o):
         run.case(line)
         run.count("sched_" + ("rep" if "*" in sc else "k") + "_feed")
@@ -483,7 +505,7 @@ def main(tier):
                         feeds.append((c, e, sc, "chunk %s %s %s %s" % (c["tn"], e["syn"], e["hex"], sc)))
                     elif n <= 250 and sc == "1*":
                         feeds.append((c, e, sc, "chunk %s %s %s %s" % (c["tn"], e["syn"], e["hex"], ",".join(["1"] * n))))
-        o = run_mod(run, m, [x[2] for x in sweeps], "C05-sweep", timeout=1500)
+        o = run_mod_par(run, m, [x[2] for x in sweeps], "C05-sweep", timeout=1500)
         oneshot = {}
         for (c, e, line), r in zip(sweeps, o):
             run.case(line)
@@ -506,7 +528,7 @@ def main(tier):
             if len(run.cov["samples"]) < 10 and nenc % 97 == 1:
                 run.sample({"cmd": line[:160], "c": r[:160]})
         # k-chunk schedules, n-byte feeding: both implementations of the discipline
-        o = run_mod(run, m, [x[3] for x in feeds], "C05-feed", timeout=1500)
+        o = run_mod_par(run, m, [x[3] for x in feeds], "C05-feed", timeout=1500)
         for (c, e, sc, line), r in zip(feeds, o):
             run.case(line)
             run.count("sched_" + ("rep" if "*" in sc else "k") + "_" + line.split()[0])
